@@ -29,6 +29,14 @@ def gen_case(seed, k, cap):
     td = G.random_type(rng, ts, G.Opts(p_attr=0.9, max_fields=4, max_variants=4, p_partial=0.3, p_repr=0.3, avoid=avoid, p_packed=0.5))
     if avoid and not td.params and rng.random() < 0.5:
         td.tsem.setdefault("Clone", {})["bound"] = rng.choice([("none",), ("none",), ("all",)])
+    if copy and not avoid and rng.random() < 0.25 and "bound" not in td.tsem.get("Clone", {}):
+        # Copy comes from std's derive, written in an attribute of its own AFTER the Educe derive (the derive input shows
+        # it): Clone alone is educed and stays the field-wise clone
+        td.traits = [t for t in td.traits if t != "Copy"]
+        td.tsem.pop("Copy", None)
+        td.other_derives = list(td.other_derives) + ["Copy"]
+        td.derives_after = True
+        copy = False
     text = S.render(td, rng_for(seed, PROP, "spell", k), extras=False)
     vals = S.values(td, cap, rng)
     drive = ["        %sdrive_clone(\"c%d\", %d, &mk);" % (RT, k, len(vals))]
